@@ -24,6 +24,16 @@ def run(ctx):
                  "kernel_mount_experiments": int(st.get("kmount/experiments", 0))}
         if not extra["kernel_mount_stream_ran"]:
             ctx.notes.append("leftover-kernel-mount stream skipped (needs root with CAP_SYS_ADMIN)")
+    # end-to-end restart pass over the REAL stack: service.NewStargzSnapshotterService (service.go wiring), the
+    # real stargz filesystem, kernel FUSE mounts, layers on the in-memory registry; oracle only
+    bs = ctx.go_test_binary("service", "h_service", only=["c09"])
+    if bs:
+        rep2 = ctx.correspond(bs, "TestVerifC09Service", "svdriver_c09", "c09svc",
+                              env=_env({"VERIF_N": 0 if quick else 6}), timeout=600 if quick else 1800)
+        st2 = (rep2 or {}).get("stats") or {}
+        extra["service_restart_pass_ran"] = bool(st2.get("scenario/kill")) and not st2.get("fuse-unavailable")
+        if st2.get("fuse-unavailable"):
+            ctx.notes.append("fuse-unavailable: the end-to-end service restart pass (TestVerifC09Service) was skipped")
     return ctx.finish(
         extra=extra,
         level="proof",
@@ -39,7 +49,13 @@ def run(ctx):
              "image before the start - on the fs directory of committed remote snapshots, of the unlabelled active "
              "snapshot of the Prepare in flight, of orphan/uncommitted ids and of temporaries; oracle: no mountpoint "
              "is left below <image>/snapshots after the start, everything stays removable, and the content behind "
-             "the planted mount survives (RemoveAll must not descend through a stale mount)",
+             "the planted mount survives (RemoveAll must not descend through a stale mount).  End-to-end (root + "
+             "/dev/fuse): service.NewStargzSnapshotterService over the real stargz filesystem with kernel FUSE mounts and "
+             "two eStargz layers on an in-memory registry; scenarios kill (mounts lazily detached, nothing closed), "
+             "close, registry-down (strict start must refuse or hand out nothing, allow_invalid_mounts_on_restart "
+             "start must succeed and Mounts stay unavailable); after each restart Walk/Mounts/mountinfo and byte-exact "
+             "kernel reads (half of the files were never read before), then Remove + Cleanup with listing and "
+             "mount-table checks",
         assumptions=[
             "a crash exposes a prefix of the atomic steps of the call in flight: mkdir/rename/RemoveAll are atomic and "
             "bolt transactions are all-or-nothing (the image holds the last committed transaction: bolt writes pages "
